@@ -7,6 +7,9 @@ package main
 // values with the helper's parameters bound to the call's arguments (Atom.Env).
 
 import (
+	"fmt"
+	"strings"
+
 	"golang.org/x/tools/go/ssa"
 )
 
@@ -125,6 +128,10 @@ func helperOutcome(p *Prog, a Atom) (*ssa.Call, string) {
 		if idx < 0 && res.Len() == 1 && res.At(0).Type().String() == "bool" {
 			return cl, "bool"
 		}
+		// one bool component of a multi-result helper: (task, ok) / (data, ok, err)
+		if idx >= 0 && idx < res.Len() && res.Len() > 1 && res.At(idx).Type().String() == "bool" {
+			return cl, fmt.Sprintf("bool@%d", idx)
+		}
 	case "nil":
 		cl, idx := callOf(a.X)
 		if cl == nil {
@@ -149,6 +156,11 @@ func helperOutcome(p *Prog, a Atom) (*ssa.Call, string) {
 // outcomeAlts: for each return of h matching the outcome (bool result == holds / error result nil == holds),
 // the atoms every path to that return has passed, with h's parameters bound by e.
 func outcomeAlts(p *Prog, h *ssa.Function, kind string, holds bool, e env, depth int, onStack map[*ssa.Function]bool) [][]factAtom {
+	resIdx := -1
+	if strings.HasPrefix(kind, "bool@") {
+		fmt.Sscanf(kind, "bool@%d", &resIdx)
+		kind = "bool"
+	}
 	facts := expandFacts(p, h, depth, onStack)
 	withEnv := func(a Atom) Atom {
 		ne := env{}
@@ -187,6 +199,12 @@ func outcomeAlts(p *Prog, h *ssa.Function, kind string, holds bool, e env, depth
 			continue
 		}
 		idx := len(r.Results) - 1
+		if resIdx >= 0 {
+			if resIdx >= len(r.Results) {
+				return nil
+			}
+			idx = resIdx
+		}
 		blk := r.Block()
 		matches := func(v ssa.Value) (bool, bool) { // (decidable, matches)
 			switch kind {
